@@ -197,6 +197,14 @@ class World:
             old = self.names(t)[i]
             self.tab[t].rename_column(old, a["nm"])
             return "Ok"
+        if act == "Dir":
+            tab = self.tab[a["x"]]
+            adv = set(dir(tab))
+            want = [self.accessor(a["x"], i) for i in range(len(self.cols[a["x"]]))]
+            missing = [x for x in want if x not in adv]
+            if missing:
+                raise Mismatch("lookup", {"dir() does not advertise": missing}, want)
+            return "Ok"
         if act == "Lookup":
             acc, how = a["nm"].split("|")
             tab = self.tab[a["x"]]
@@ -236,6 +244,8 @@ class World:
         if pos is not None:
             forms += ["t[i, k] = x", "t[i, accessor] = x", "t.cols()[k][i] = x"]
         k = self.pick(len(forms))
+        if a.get("nm") == "byname" and pos is not None:
+            k = 7                      # table item assignment keyed by the column's CURRENT accessor
         self.forms.append(forms[k])
         n = len(v)
         self._sharers_before = [(p, list(p)) for p in self.vec.values() if p is not v and p._underlying is v._underlying]
@@ -514,6 +524,8 @@ def replay_case(case, variant):
             if last:
                 clause = {"Write": "write_error", "NewTable": "ragged_outcome", "SetAttr": "setattr_error",
                           "Lookup": "lookup"}.get(a["a"], "outcome")
+                if a["a"] == "Write" and a.get("nm") == "byname":
+                    clause = "lookup"      # the column's advertised accessor did not resolve as an item-assignment key
                 fails.append((clause, k, f"raised {type(ex).__name__}: {ex}", a["res"], list(w.forms)))
             return fails
         if res != a["res"]:
@@ -552,7 +564,7 @@ def replay(cases_path, out_path, nvariants):
         for n, line in enumerate(f):
             case = json.loads(line)
             for var in range(nvariants):
-                variant = n * 3 + var * 5
+                variant = case.get("variant", n * 3 + var * 5)
                 fs = replay_case(case, variant)
                 executed += 1
                 for clause, k, obs, exp, forms in fs:
